@@ -760,3 +760,129 @@ def install_aead(E):
         raise Exception("AEAD method %s" % method)
     I["$invoke:$aead.*"] = aead_invoke
     doc("miscreant AEAD (ideal)", install_aead.__doc__)
+
+
+def install_stream(E):
+    """bufio / encoding/binary.Read over a harness reader with fields {data []byte; pos int}:
+    bufio.NewReader(r) wraps r; (*bufio.Reader).Read(p) forwards to r.Read(p) (one underlying read: an
+    arbitrary 1..min(len p, remaining) bytes - the io.Reader contract); binary.Read(r, BigEndian, p) is
+    io.ReadFull of sizeof(*p) bytes followed by a big-endian decode into the static type of *p, and
+    io.ReadFull(r, buf) takes exactly len(buf) bytes or fails with io.EOF (nothing left) /
+    io.ErrUnexpectedEOF (short), independently of the segmentation."""
+    I = E.intercepts
+
+    def inner_ptr(x):
+        # x: Iface holding *bufio.Reader (our wrapper object) or Ptr to it
+        if type(x) is Iface:
+            (c, t, p), = [a for a in x.alts if a[1] is not None]
+            x = p
+        return x
+
+    def new_reader(E, name, args, ins):
+        r = args[0]   # io.Reader iface holding *c20reader
+        oid = E.alloc(None, SV([r]), name="bufio.Reader")
+        return Ptr.to(oid)
+    I["bufio.NewReader"] = new_reader
+
+    def under(E, br):
+        v = E.load(inner_ptr(br))
+        return v.f[0]
+
+    def br_read(E, name, args, ins):
+        r = under(E, args[0])
+        return E.invoke(r, "Read", [args[1]], ins)
+    I["(*bufio.Reader).Read"] = br_read
+
+    EOF_TOK = E.ghost.setdefault("io.EOF", E.err_token())
+    UEOF_TOK = E.ghost.setdefault("io.ErrUnexpectedEOF", E.err_token())
+    E.cfg.setdefault("global_init", {})["io.EOF"] = lambda E, t: EOF_TOK
+    E.cfg["global_init"]["io.ErrUnexpectedEOF"] = lambda E, t: UEOF_TOK
+
+    def take(E, rd_iface, n, ins):
+        """ReadFull semantics on the underlying {data,pos} reader: returns (list of n byte terms getter, ok, err)"""
+        (c, t, p), = [a for a in rd_iface.alts if a[1] is not None]
+        st = E.load(p)                 # SV([data Slice, pos])
+        data, pos = st.f[0], st.f[1]
+        rem = data.len - pos
+        ok = And(rem >= n, n >= 0)
+        err = ite(ok, Iface.nil(), ite(rem <= 0, EOF_TOK, UEOF_TOK))
+        newpos = zif(ok, pos + n, data.len)
+        E.ghost.setdefault("dbg_take", []).append((data.len, pos, n, ok))
+        E.store(p, SV([data, newpos] + list(st.f[2:])))
+        return data, pos, ok, err
+
+    def binary_read(E, name, args, ins):
+        r, order, dst = args
+        rd = under(E, r) if type(r) is Iface and any(a[1] is not None and "bufio.Reader" in a[1] for a in r.alts) else r
+        (c, tid, dp), = [a for a in dst.alts if a[1] is not None]
+        pt = E.prog.type(tid)
+        et = pt.elem()
+        u = et.under()
+        g0 = E.guard
+
+        def be(data, pos, off, nbytes):
+            val = None
+            for i in range(nbytes):
+                b = E.slice_get(data, pos + bv(off + i))
+                val = b if val is None else z3.Concat(val, b)
+            return val
+        if u.kind == "int":
+            nb = u.d["bits"] // 8
+            data, pos, ok, err = take(E, rd, bv(nb), ins)
+            E.guard = And(g0, ok)
+            if not is_false(E.guard):
+                E.store(dp, be(data, pos, 0, nb))
+            E.guard = g0
+            return err
+        if u.kind == "struct":
+            fs = u.d["fields"]
+            total = sum(E.prog.type(f["type"]).under().d["bits"] // 8 for f in fs)
+            data, pos, ok, err = take(E, rd, bv(total), ins)
+            E.guard = And(g0, ok)
+            if not is_false(E.guard):
+                off = 0
+                vals = []
+                for f in fs:
+                    nb = E.prog.type(f["type"]).under().d["bits"] // 8
+                    vals.append(be(data, pos, off, nb))
+                    off += nb
+                E.store(dp, SV(vals))
+            E.guard = g0
+            return err
+        if u.kind == "slice":
+            sl = E.load(dp)
+            n = sl.len
+            data, pos, ok, err = take(E, rd, n, ins)
+            nc = E.conc(n)
+            if nc is None:
+                nc = E.copy_bound
+                E.oblige("bound", Or(Not(ok), z3.ULE(n, bv(nc))), oid="binary.Read-slice-len@%s" % ins.get("pos", ""))
+            for i in range(nc):
+                E.guard = And(g0, ok, z3.ULT(bv(i), n))
+                if is_false(E.guard):
+                    continue
+                E.slice_set(sl, bv(i), E.slice_get(data, pos + bv(i)))
+            E.guard = g0
+            return err
+        raise Exception("binary.Read into %s" % et.id)
+    I["encoding/binary.Read"] = binary_read
+
+    def io_readfull(E, name, args, ins):
+        r, buf = args
+        rd = under(E, r) if type(r) is Iface and any(a[1] is not None and "bufio.Reader" in a[1] for a in r.alts) else r
+        g0 = E.guard
+        n = buf.len
+        data, pos, ok, err = take(E, rd, n, ins)
+        nc = E.conc(n)
+        if nc is None:
+            nc = E.copy_bound
+            E.oblige("bound", Or(Not(ok), z3.ULE(n, bv(nc))), oid="io.ReadFull-len@%s" % ins.get("pos", ""))
+        for i in range(nc):
+            E.guard = And(g0, ok, z3.ULT(bv(i), n))
+            if is_false(E.guard):
+                continue
+            E.slice_set(buf, bv(i), E.slice_get(data, pos + bv(i)))
+        E.guard = g0
+        return (zif(ok, n, bv(0)), err)
+    I["io.ReadFull"] = io_readfull
+    doc("bufio / binary.Read / io.ReadFull (stream model)", install_stream.__doc__)
